@@ -33,13 +33,14 @@ const addr = "127.0.0.1:9000"
 // pending calls and deliveries); handle 2 is either closed the same way (Close2) or stays
 // open and drains until the harness closes it at the end (then nothing may be lost).
 type spec struct {
-	Packet bool
-	Close2 bool
-	N      int  // connections / datagrams
-	Reacq  bool // after everything closed: acquire again and deliver one more
-	FailFirst bool // the very first acquire fails (address in use), the following ones succeed
+	Packet     bool
+	Close2     bool
+	N          int  // connections / datagrams
+	Reacq      bool // after everything closed: acquire again and deliver one more
+	FailFirst  bool // the very first acquire fails (address in use), the following ones succeed
 	ListenRace bool // a further listen on the address races the closes: it must succeed whatever the timing
 	Twice      bool // stream: the closer calls Close twice on its handle (the second call must not disturb the other handle)
+	AcceptErr  bool // stream: the socket's next accept fails once with a transient error (the handles go on working)
 	Cross      bool // stream: a packet handle on the same address is open as well and is closed at an arbitrary moment (its release must not disturb the stream side)
 }
 
@@ -55,19 +56,23 @@ func (s spec) name() string {
 	if s.Cross {
 		n += "[with-packet-handle]"
 	}
+	if s.AcceptErr {
+		n += "[transient-accept-error]"
+	}
 	return n
 }
 
 type obsT struct {
-	delivered   map[int][]string // item -> handles that got it
-	afterClose  []string         // results of calls issued after Close returned
-	lost        []int
-	leftOpen    []int
-	errs        []string
-	released    bool
-	reacqOK     bool
-	dialErrs    []string
-	total       int
+	delivered  map[int][]string // item -> handles that got it
+	afterClose []string         // results of calls issued after Close returned
+	lost       []int
+	leftOpen   []int
+	errs       []string
+	released   bool
+	reacqOK    bool
+	dialErrs   []string
+	total      int
+	transient  int
 }
 
 func streamScenario(s spec) *engine.Scenario {
@@ -103,6 +108,11 @@ func streamScenario(s spec) *engine.Scenario {
 				for {
 					c, err := ln.AcceptStream()
 					if err != nil {
+						if s.AcceptErr && !errors.Is(err, net.ErrClosed) && o.transient < 1 {
+							// the injected transient error: reported to one handle, which goes on accepting
+							o.transient++
+							continue
+						}
 						if !errors.Is(err, net.ErrClosed) {
 							o.errs = append(o.errs, h+": "+err.Error())
 						}
@@ -154,6 +164,11 @@ func streamScenario(s spec) *engine.Scenario {
 				}
 				ln3.Close()
 			}))
+		}
+		if s.AcceptErr {
+			for _, l := range vw.Listeners() {
+				l.InjectAcceptError()
+			}
 		}
 		tc := vrt.Spawn("connector", func() {
 			for i := 0; i < s.N; i++ {
@@ -466,6 +481,7 @@ func specs(tier string) []spec {
 	}
 	out = append(out,
 		spec{Close2: false, N: 2, Twice: true},
+		spec{Close2: false, N: 2, AcceptErr: true},
 		spec{Close2: false, N: 1, ListenRace: true, Cross: true})
 	return out
 }
